@@ -373,15 +373,14 @@ def sorted_lots(case):
     return sorted(case["ins"], key=lambda r: r["ts"][0])
 
 
-def coverable(case, dust_ok=True):
+def coverable(case):
     """the property's own criterion for 'lots acquired so far cannot cover it': returns the index of the first
-    taxable event whose cumulative disposals exceed the lots acquired at or before it, else None"""
+    taxable event whose cumulative disposals exceed the lots acquired at or before it, else None.
+    Every transfer fee counts, however small its fiat value (property C03: a transfer with a non-zero fee is taxed)"""
     lots = sorted_lots(case)
     used = 0
     for k, e in enumerate(taxable_oracle(case)):
         if e["earn"]:
-            continue
-        if e["cls"] == 2 and not intra_fee_taxed(e):
             continue
         used += e["amt"]
         have = sum(l["crypto_in"] for l in lots if l["ts"][0] <= e["us"])
@@ -391,8 +390,15 @@ def coverable(case, dust_ok=True):
 
 
 def intra_fee_taxed(e):
-    """RP2 taxes a transfer iff the fiat value of its fee is > 0 at 13 decimals (finding F8 for dust)"""
-    return round_half_even_13(e["amt"] * e.get("spot", 0)) > 0
+    """the property text (C03): a transfer between own accounts is a taxable event iff its fee is non-zero -- whatever the
+    fee is worth.  (The implementation once compared the fiat value of the fee at 13 decimals: finding F8, repaired.)"""
+    return e["amt"] != 0
+
+
+def is_dust_fee(e):
+    """informational: a non-zero transfer fee whose fiat value rounds to 0 at 13 decimals (the shape of finding F8);
+    used only to tag a violation, never to excuse one"""
+    return e["amt"] != 0 and round_half_even_13(e["amt"] * e.get("spot", 0)) <= 0
 
 
 def round_half_even_13(prod_units22):
